@@ -53,6 +53,7 @@ type ACred struct {
 	Issuer        string
 	Issuance      *time.Time
 	Expiration    *time.Time
+	SingleContext bool   // the credential names one (bundled) context instead of the usual pair
 	SubjectTypeAs string // "string" | "array2" | "none"
 	TopTypes      []string
 	RevNonce      uint64
@@ -156,6 +157,7 @@ func randCred(r *Rng, serialized bool) *ACred {
 	}
 	c.RevNonce = r.U64() >> uint(r.Intn(64))
 	c.TypeAlias = r.Chance(15)
+	c.SingleContext = r.Chance(12)
 	if r.Chance(30) {
 		// a context re-published under the same URL (or served differently by another loader), and types that keep their
 		// name and IRI from one context document to the next: the same context list and type, another context document -
@@ -217,7 +219,23 @@ func (c *ACred) typeContext() []byte {
 }
 
 func (c *ACred) loader() *mapLoader {
-	return &mapLoader{docs: map[string][]byte{vcCtxURL: []byte(vcCtx), c.TypeURL: c.typeContext()}}
+	m := &mapLoader{docs: map[string][]byte{vcCtxURL: []byte(vcCtx), c.TypeURL: c.typeContext()}}
+	if c.SingleContext {
+		m.docs[c.bundleURL()] = c.bundleContext()
+	}
+	return m
+}
+
+// a credential may name one context only: a document that bundles the credentials vocabulary and the schema's terms
+func (c *ACred) bundleURL() string { return c.TypeURL + ".bundle.jsonld" }
+
+func (c *ACred) bundleContext() []byte {
+	var a, b map[string]any
+	if json.Unmarshal([]byte(vcCtx), &a) != nil || json.Unmarshal(c.typeContext(), &b) != nil {
+		panic("bundleContext: contexts do not parse")
+	}
+	out, _ := json.Marshal(map[string]any{"@context": []any{a["@context"], b["@context"]}})
+	return out
 }
 
 // JSON renders the credential document (without proof)
@@ -255,7 +273,11 @@ func (c *ACred) JSON() []byte {
 	if c.ID != "" {
 		o = append(o, KV{"id", c.ID})
 	}
-	o = append(o, KV{"@context", []any{vcCtxURL, c.TypeURL}}, KV{"type", tt})
+	if c.SingleContext {
+		o = append(o, KV{"@context", []any{c.bundleURL()}}, KV{"type", tt})
+	} else {
+		o = append(o, KV{"@context", []any{vcCtxURL, c.TypeURL}}, KV{"type", tt})
+	}
 	if c.Expiration != nil {
 		o = append(o, KV{"expirationDate", c.Expiration.Format(time.RFC3339Nano)})
 	}
